@@ -294,6 +294,9 @@ yprp_stmt(struct lys_ypr_ctx *pctx, struct lysp_stmt *stmt)
     }
 }
 
+static void yprp_extension_instances(struct lys_ypr_ctx *pctx, enum ly_stmt substmt, uint8_t substmt_index,
+        struct lysp_ext_instance *exts, ly_bool *flag);
+
 static void
 yprp_extension_instance(struct lys_ypr_ctx *pctx, enum ly_stmt substmt, uint8_t substmt_index,
         struct lysp_ext_instance *ext, ly_bool *flag)
@@ -317,6 +320,10 @@ yprp_extension_instance(struct lys_ypr_ctx *pctx, enum ly_stmt substmt, uint8_t 
 
     child_presence = 0;
     LEVEL++;
+
+    /* nested extension instances */
+    yprp_extension_instances(pctx, LY_STMT_EXTENSION_INSTANCE, 0, ext->exts, &child_presence);
+
     LY_LIST_FOR(ext->child, stmt) {
         if (stmt->flags & (LYS_YIN_ATTR | LYS_YIN_ARGUMENT)) {
             continue;
